@@ -175,5 +175,14 @@ add("C07", "model_checking",
     "capped at 700 executions are reported in the evidence.",
     "§3 C07")
 
-for _p in ["C15", "C18"]:
+add("C18", "exploration",
+    "bounded-exhaustive enumeration of ranges and specification strings against half-open reference selections",
+    "Every [ molecule ] index range and every residue-id range (0..6) for each molecule / residue name on a topology with "
+    "interleaved repeated molecule names, for two directive kinds, plus overlapping blocks; every present/omitted-field "
+    "combination of -start and of -lig host / ligand strings (ligands executed through the real gen_coords and measured by "
+    "minimum image); every set partition of 2- and 3-atom residues for -split, at the processor and through gen_coords.",
+    "Sizes via [ volumes ] except in the dedicated no-volume ligand cases; specs naming no molecule are not generated for -start.",
+    "§5 C18")
+
+for _p in ["C15"]:
     NOT_YET[_p] = "check under construction in this session (bounded exhaustive exploration applies; see DESIGN.md)"
